@@ -154,6 +154,23 @@ theorem C13_flags_effAdv (advF advC : String → Option Int) (own : Int) (us : L
       rw [autoFlag_effOf advF own _ (libLoop_unflagged_of_noKey us false cs hk' hc),
           autoFlag_effOf advC own _ (libLoop_unflagged_of_noKey us false ds hk' hd)]
 
+/-- … in the form the predicate `holdsTT` asks for: consistent hinting data (the rasteriser's advance without the skip list
+    is the glyph's own) stays consistent with the skip list -/
+theorem C13_flags_effAdv_consistent (advF advC : String → Option Int) (own : Int) (us : List CLib) (cs ds : List TTComp)
+    (h : SameSlots advF advC us cs ds) (hc : effOf advF own (setCompositeFlags advF own us cs) = some own) :
+    effOf advC own (setCompositeFlags advC own us ds) = some own := by
+  rw [← C13_flags_effAdv advF advC own us cs ds h]; exact hc
+
+/-- … and when the number of components changes (a skipped glyph inlined to several components, or to contours), the
+    fallback `autoUseMyMetrics` gives the glyph's own advance whatever the UFO asked for -/
+theorem C13_flags_count_changed (adv : String → Option Int) (own : Int) (us : List CLib) (ds : List TTComp)
+    (hl : ds.length ≠ us.length) (hd : ∀ d ∈ ds, d.useMy = false) :
+    effOf adv own (setCompositeFlags adv own us ds) = some own := by
+  unfold setCompositeFlags
+  have : (ds.length != us.length) = true := by simpa using hl
+  simp only [this, if_true]
+  exact autoFlag_effOf adv own ds hd
+
 /-! ### witnesses: aacute = [_alias, a] with `useMyMetrics` on the `a` component, `_alias` = [acutecomb] skipped -/
 
 def wAdv (n : String) : Option Int :=
